@@ -35,6 +35,6 @@ The property (id {p['id']}: {p['title']}):
 Requirements for the change:
  1. It modifies non-test Go source of the repository (a few lines, the kind of slip a real developer could make: an off-by-one at a boundary, a missing copy or reset, two updates in the wrong order, a dropped branch for a rare input shape, a lock released too early, a stale cache entry, a wrong variable of the same type...).
  2. It breaks the property above, but only under something SPECIFIC: a particular interleaving, a multi-step sequence of operations, an unusual input shape or boundary value, a particular configuration, or two cooperating sites that each look fine alone. It must NOT be something ordinary use exposes at once, and the repository's own tests must not notice: the code must build (`go build ./...` in the touched packages and `go vet` not required) and `go test -count=1 -p 2 ./<every package you touched and its direct test-dependents you can identify>/...` must pass with the change. Run them and record the commands and results. If a test fails, choose a different change.
- 3. Demonstration: a new Go test file (name it zz_seed_demo_test.go, placed in the package where it is most natural; it may use unexported identifiers) or a small program that FAILS with your change and PASSES without it (verify both ways: `git stash` / `git stash pop`, or apply/revert the patch). The demonstration must exercise the real code path through its normal API as far as practical.
+ 3. Demonstration: a new Go test file (name it zz_seed_demo_test.go, placed in the package where it is most natural; it may use unexported identifiers) or a small program that FAILS with your change and PASSES without it (verify both ways by saving `git diff > patch.diff` and using `git apply -R patch.diff` / `git apply patch.diff`; NEVER use `git stash`: the stash is shared between all worktrees of /repo and other people are working in parallel). The demonstration must exercise the real code path through its normal API as far as practical.
 Deliver, under {out}/ (create it): patch.diff (`git diff` of the source change only, without the demo file), the demonstration file, and NOTES.md saying: which property clause is broken and how, what exactly it needs in order to manifest (inputs / sequence / schedule / configuration), the commands you ran with results (tests with the change: pass; demo with: fail; demo without: pass). Finally remove your worktree: git -C /repo worktree remove --force {wt}
 Your final message: 10 lines max — the change in one sentence, what it needs to manifest, and the paths of the delivered files.""")
